@@ -14,6 +14,7 @@ VARIABLES a, b, phase
 
 N1 == VNum(N_one)   N2 == VNum(N_two)
 S(x) == VStr(x)
+KT1 == <<126, 49>>
 KA == <<97>>  KAA == <<65>>  KB == <<98>>  KSL == <<97, 47, 98>>  KTI == <<109, 126, 110>>
 
 \* ---- documents ----
@@ -37,7 +38,9 @@ DocsApply == {
   VObj(<< <<KA, VArr(<<N1, N2>>)>>, <<KAA, N2>>, <<KSL, VObj(<< <<KTI, N1>> >>)>> >>),
   VArr(<< N1, VObj(<< <<KA, N1>>, <<KB, VArr(<<>>)>> >>), VArr(<<N2>>) >>),
   VObj(<< <<KB, N1>>, <<KA, N2>> >>), VArr(<<>>), VObj(<<>>), N1, S(<<120, 121>>),
-  VObj(<< <<KA, S(<<120>>)>>, <<KB, VObj(<< <<KA, S(<<121>>)>> >>)>> >>) }
+  VObj(<< <<KA, S(<<120>>)>>, <<KB, VObj(<< <<KA, S(<<121>>)>> >>)>> >>),
+  \* member names that still look like an escape after decoding: "~1" (pointer /~01), "/" (pointer /~1), "~0" (pointer /~00), "x~01" (pointer /x~001)
+  VObj(<< <<KT1, N1>>, <<<<47>>, N2>>, <<<<126, 48>>, N1>>, <<<<120, 126, 48, 49>>, N2>> >>) }
 BigDocsApply == {Wide(1001), Wide(1200), VObj(<< <<KA, Wide(1001)>> >>), TenA}
 
 \* ---- pointers worth trying in a document ----
@@ -107,6 +110,8 @@ MObj3 == ObjsOver({N1, VNull} \cup ObjsOver({N1, VNull} \cup ObjsOver({N1, VNull
 ArrNull == VArr(<<VObj(<< <<KA, VNull>>, <<KB, N1>> >>)>>)
 MArrs == {ArrNull, VArr(<<VNull>>), VObj(<< <<KA, ArrNull>> >>), VObj(<< <<KB, VObj(<< <<KA, ArrNull>>, <<KB, VNull>> >>)>> >>),
           VObj(<< <<KA, VArr(<<VNull, VObj(<< <<KA, VNull>> >>), VArr(<<VObj(<< <<KB, VNull>> >>)>>)>>)>> >>)}
+RECURSIVE NullBelowObjects(_)       \* a null member reachable through objects only (arrays are opaque values to RFC 7396)
+NullBelowObjects(v) == v.t = "obj" /\ \E i \in DOMAIN v.m : v.m[i].v.t = "null" \/ NullBelowObjects(v.m[i].v)
 MergeUniverse == MArrs \cup IF Tier = "quick" THEN MVals0 \cup MObj1 ELSE IF Tier = "deep" THEN MVals0 \cup MObj1 \cup MObj2 \cup MObj3 ELSE MVals0 \cup MObj1 \cup MObj2
 
 \* ---- pairs for generation ----
@@ -144,7 +149,9 @@ LongDocs == {LongPath(N1, N1, N1), LongPath(N2, N2, N1), LongPath(N1, N2, N2), L
 NestedFam == {VObj(<< <<KA, x>>, <<KB, N2>> >>) : x \in ObjsOver({N1}, {KA, KB, KTI}, 3, TRUE)}
              \cup {VObj(<< <<KA, VObj(<< <<KB, N2>>, <<KA, N1>> >>)>>, <<KB, N2>> >>)}
              \cup {VObj(<< <<KB, VObj(<< <<KA, x>> >>)>> >>) : x \in ObjsOver({N1}, {KB, KA}, 2, TRUE) \cup {VObj(<< <<KTI, N1>>, <<KB, N2>>, <<KA, N1>> >>)}}
-PairUniverse == NumDocs \cup HiDocs \cup PairUniverse0 \cup LongDocs \cup NestedFam
+\* member names that still look like an escape after one decoding ("~1" next to "/", "~0" next to "~")
+TildeDocs == ObjsOver({N1, N2}, {KT1, <<47>>}, 2, TRUE) \cup {VObj(<< <<<<126, 48>>, x>>, <<<<126>>, N1>> >>) : x \in {N1, N2}} \cup {VObj(<< <<KA, VObj(<< <<KT1, x>>, <<<<47>>, N2>> >>)>> >>) : x \in {N1, N2}}
+PairUniverse == NumDocs \cup HiDocs \cup PairUniverse0 \cup LongDocs \cup NestedFam \cup TildeDocs
 
 Init == /\ phase = 0 /\ b = VNull
         /\ a \in (IF Mode = "apply" THEN DocsApply \cup (IF Tier = "quick" THEN {} ELSE Doc1 \cup BigDocsApply) ELSE IF Mode = "merge" THEN MergeUniverse ELSE PairUniverse)
@@ -165,7 +172,7 @@ Step ==
          /\ LET r == MergeRFC(a, b') IN
             /\ Assert(SemEq(MergeImpl(a, b'), r, TRUE), <<"C18: merge_patch transcription differs from RFC 7396", a, b'>>)
             /\ Assert(b'.t = "obj" \/ r = b', "RFC 7396: a non-object patch replaces the target")
-            /\ Assert(~HasNullMember(r) \/ b'.t # "obj" \/ HasNullMember(a), "RFC 7396: null members delete")
+            /\ Assert(~NullBelowObjects(r) \/ b'.t # "obj" \/ NullBelowObjects(a), "RFC 7396: null members delete")
             /\ (Emit => PrintT(ToJson(<<"M", JV(a), JV(b'), JV(r)>>)))
     [] OTHER ->
          /\ b' \in (IF a \in LongDocs THEN LongDocs ELSE PairUniverse \ LongDocs)
